@@ -463,6 +463,27 @@ func checkHelpers(t fataler, s stz, payload *node, se stanza.Error) {
 			fail("UnmarshalError on the tokens of Error(err) = %s: %s", showStanzaError(got), d)
 		}
 	}
+	if len(toks) > 0 && s.kind == "iq" {
+		st0, _ := toks[0].(xml.StartElement)
+		// the reply read straight from its tokens (no serialisation in between)
+		var iq stanza.IQ
+		var e error
+		if p := ev.Guard(func() { iq, e = stanza.UnmarshalIQError(&sliceReader{toks: toks[1:]}, st0.Copy()) }); p != "" {
+			fail("UnmarshalIQError on the tokens of Error(err): %s", p)
+		}
+		ge, ok := e.(stanza.Error)
+		if !ok {
+			fail("UnmarshalIQError on the tokens of Error(err) %v returned error %T %v, want the stanza.Error", normTokens(toks), e, e)
+		}
+		if d := diffStanzaError(ge, se); d != "" {
+			fail("UnmarshalIQError on the tokens of Error(err) = %s: %s", showStanzaError(ge), d)
+		}
+		th := fromIQ(iq)
+		th.kind = s.kind
+		if d := diffStz(th, r, true); d != "" {
+			fail("header of Error(err) read from its tokens parses to %s: %s", th, d)
+		}
+	}
 	start, dec, err := firstStart(b)
 	if err != nil {
 		fail("Error(err) output %q: %v", b, err)
